@@ -1,12 +1,15 @@
 """C09 Hash-map variables and Dict entries agree between Python and program
 (and the operation machine of C10)
 
-domain : programs with 1-6 hash-map variables (formats, defaults) and one Dict
-         whose key / value Structures have 1-3 packed members of all sizes;
+domain : programs with 1-6 hash-map variables (formats, defaults), a Dict
+         whose key / value Structures have 1-3 packed members of all sizes, a
+         second Dict and possibly a local variable declared next to it;
          histories of operations issued from Python (variable get / set;
-         d[k] = v, d[k], del, pop with and without default, iteration) and
-         from the program (variable store / load; set key members, update(),
-         lookup() with member reads and writes, Else), against a dict model.
+         d[k] = v, d[k], del, pop with and without default, `in`, iteration)
+         and from the program (variable store / load / direct copy between
+         two variables; set key members, update(), lookup() with member reads
+         and writes, Else; both Dicts staged before either is updated, with a
+         local and a hash-map variable used in between), against a dict model.
 executor: maps live in the user-space stand-in for bpf(2) (vf/vm/fakebpf.py),
          the program runs in the independent interpreter on the same maps.
 oracle : after every operation both sides agree with the model; defaults are
@@ -20,7 +23,7 @@ from contextlib import contextmanager
 from hypothesis import strategies as st
 
 from ebpfcat.arraymap import ArrayMap, PerCPUArrayMap
-from ebpfcat.ebpf import AssembleError, Member, Structure
+from ebpfcat.ebpf import AssembleError, LocalVar, Member, Structure
 from ebpfcat.hashmap import Dict, HashMap
 from ebpfcat.xdp import XDP, XDPExitCode
 
@@ -77,12 +80,17 @@ def case_strategy(draw, percpu=False):
     kf = draw(layout("k"))
     vf = draw(layout("v"))
     keys = [[val_for(draw, f) for f in kf] for _ in range(4)]
+    # a second Dict (and possibly a local variable) declared after the first
+    kf2 = draw(layout("k"))
+    vf2 = draw(layout("v"))
+    keys2 = [[val_for(draw, f) for f in kf2] for _ in range(4)]
     ops = []
     for _ in range(draw(st.integers(3, 25))):
         kind = draw(st.sampled_from(
             ["py_hget", "py_hset", "pr_hget", "pr_hset", "pr_hsetx", "py_dset",
              "py_dget", "py_ddel", "py_dpop", "py_dpopd", "py_diter",
-             "pr_dupd", "pr_dlook", "pr_dmod", "py_aget", "py_pread"]))
+             "pr_dupd", "pr_dlook", "pr_dmod", "py_aget", "py_pread",
+             "pr_dupd2", "pr_hcopy", "py_din"]))
         k = draw(st.integers(0, len(hv) - 1))
         f = hv[k]["fmt"]
         op = {"op": kind, "k": k,
@@ -90,7 +98,17 @@ def case_strategy(draw, percpu=False):
               "hval": draw(st.integers(0, 10**6)) if f == "x"
               else val_for(draw, f),
               "vals": [val_for(draw, x) for x in vf]}
+        if kind == "pr_dupd2":
+            op["key2"] = draw(st.integers(0, 3))
+            op["vals2"] = [val_for(draw, x) for x in vf2]
+        if kind == "pr_hcopy":
+            # a direct program-side copy between two hash-map variables
+            op["k2"] = draw(st.integers(0, len(hv) - 1))
+            if draw(st.booleans()):
+                ops.append(dict(op, op="py_hset"))
         ops.append(op)
+        if kind == "pr_hcopy" and draw(st.booleans()):
+            ops.append(dict(op, op="py_hget", k=op["k2"]))
         other = {"py_hset": "pr_hget", "pr_hset": "py_hget",
                  "pr_hsetx": "py_hget",
                  "py_dset": "pr_dlook", "pr_dupd": "py_dget",
@@ -98,6 +116,9 @@ def case_strategy(draw, percpu=False):
         if other and draw(st.booleans()):
             ops.append(dict(op, op=other))
     return {"hv": hv, "kf": kf, "vf": vf, "keys": keys, "ops": ops,
+            "kf2": kf2, "vf2": vf2, "keys2": keys2,
+            "loc": draw(st.sampled_from([None, "B", "H", "I", "Q"])),
+            "loc_first": draw(st.booleans()),
             "size": draw(st.integers(2, 6)), "lru": draw(st.booleans()),
             "exec": draw(st.sampled_from(["fake", "fake", "kernel"])),
             "derived": draw(st.booleans()),
@@ -150,13 +171,26 @@ def build(case, f):
     Key = structure("Key", "k", kf)
     Value = structure("Value", "v", vf)
     ns = {"license": "GPL", "minimumPacketSize": 20, "amap": amap,
-          "hmap": hmap, "pmap": pmap,
-          "table": Dict(Key, Value, size=case["size"], lru=case["lru"]),
+          "hmap": hmap, "pmap": pmap}
+    two = bool(case.get("kf2"))
+    if two and case.get("loc") and case.get("loc_first"):
+        ns["loc"] = LocalVar(case["loc"])
+    ns["table"] = Dict(Key, Value, size=case["size"], lru=case["lru"])
+    if two:
+        if case.get("loc") and not case.get("loc_first"):
+            ns["loc"] = LocalVar(case["loc"])
+        Key2 = structure("Key2", "k", case["kf2"])
+        Value2 = structure("Value2", "v", case["vf2"])
+        ns["table2"] = Dict(Key2, Value2, size=8)
+        for i in range(3):
+            ns[f"kb{i}"] = amap.globalVar("q")
+            ns[f"vb{i}"] = amap.globalVar("q")
+    ns.update({
           "op": amap.globalVar("I"), "sel": amap.globalVar("I"),
           "found": amap.globalVar("I"), "a0": amap.globalVar("q"),
           "o0": amap.globalVar("q"), "ax": amap.globalVar("x"),
           "ox": amap.globalVar("x"), "pc0": pmap.globalVar("Q"),
-          "pc1": pmap.globalVar("I")}
+          "pc1": pmap.globalVar("I"), "sel2": amap.globalVar("I")})
     for i in range(3):
         ns[f"ka{i}"] = amap.globalVar("q")
         ns[f"va{i}"] = amap.globalVar("q")
@@ -211,12 +245,48 @@ def build(case, f):
                 with e.sel == i:
                     setattr(e, f"hv{i}",
                             e.ax + 2 if hv[i]["fmt"] == "x" else e.a0 + 3)
+        if two:
+            with e.op == 8:
+                # both Dicts staged before either update; a local variable
+                # and a hash-map variable are used in between
+                for i in range(len(kf)):
+                    setattr(e.table.key, f"k{i}", getattr(e, f"ka{i}"))
+                for i in range(len(vf)):
+                    setattr(e.table.value, f"v{i}", getattr(e, f"va{i}"))
+                if "loc" in ns:
+                    e.loc = e.a0
+                for i in range(len(hv)):
+                    with e.sel == i:
+                        if hv[i]["fmt"] == "x":
+                            e.ox = getattr(e, f"hv{i}")
+                        else:
+                            e.o0 = getattr(e, f"hv{i}")
+                for i in range(len(case["kf2"])):
+                    setattr(e.table2.key, f"k{i}", getattr(e, f"kb{i}"))
+                for i in range(len(case["vf2"])):
+                    setattr(e.table2.value, f"v{i}", getattr(e, f"vb{i}"))
+                e.table2.update()
+                e.found = e.r0
+                e.table.update()
+                e.o0 = e.sr0
+                if "loc" in ns:
+                    e.vo0 = e.loc
+        with e.op == 9:
+            # hash-map variable copied to another one, directly
+            for i in range(len(hv)):
+                for j in range(len(hv)):
+                    if i != j and (hv[i]["fmt"] == "x") == (
+                            hv[j]["fmt"] == "x"):
+                        with (e.sel == i) & (e.sel2 == j):
+                            setattr(e, f"hv{j}", getattr(e, f"hv{i}"))
         e.exit(XDPExitCode.TX)
 
     ns["program"] = program
     cls = type("P", (XDP,), ns)
     e = cls()
     e.load()
+    if two:
+        e.Key2, e.Value2 = Key2, Value2
     return e, Key, Value
 
 
@@ -254,6 +324,7 @@ def run_case(case, judge_overruns=False):
         fd = e.file_descriptor
         cells = {i: h["default"] for i, h in enumerate(hv)}
         table = {}        # key tuple -> value list
+        table2 = {}
         order = []
         crossed = False
         written_by = {}
@@ -321,14 +392,14 @@ def run_case(case, judge_overruns=False):
                         run_prog(op=7, sel=k, ax=v)
                         cells[k] = (op["hval"] + 200000) / 100000
                     else:
-                        lo, hi = dsl.fmt_range(fmt)
+                        lo, hi = dsl.fmt_range(fmt[-1])
                         v = min(op["hval"], hi - 3)
                         run_prog(op=7, sel=k, a0=v)
                         cells[k] = v + 3
                     written_by["h", k] = "pr"
                 elif kind == "pr_hget":
                     run_prog(op=2, sel=k, o0=-12345, ox=-1.5)
-                    got = e.ox if fmt == "x" else dsl.decode_value(e.o0, fmt)
+                    got = e.ox if fmt == "x" else dsl.decode_value(e.o0, fmt[-1])
                     if written_by.get(("h", k)) == "py":
                         crossed = True
                     want = cells[k]
@@ -475,6 +546,75 @@ def run_case(case, judge_overruns=False):
                     if present and kind == "pr_dmod":
                         table[key] = list(op["vals"])
                         written_by["d", key] = "pr"
+                elif kind == "py_din":
+                    got = mk(Key, knames, key) in e.table
+                    if got != (key in table):
+                        return fail(f"'key in table' is {got} for "
+                                    f"{'an existing' if key in table else 'an absent'}"
+                                    f" key", bucket=kind)
+                elif kind == "pr_hcopy":
+                    k2 = op.get("k2", k)
+                    f2 = hv[k2]["fmt"]
+                    if k2 == k or (fmt == "x") != (f2 == "x"):
+                        continue
+                    if fmt != "x":
+                        lo, hi = dsl.fmt_range(f2[-1])
+                        if not lo <= cells[k] <= hi:
+                            continue     # does not fit: unspecified
+                    run_prog(op=9, sel=k, sel2=k2)
+                    cells[k2] = cells[k]
+                    written_by["h", k2] = "pr"
+                    if written_by.get(("h", k)) == "py":
+                        crossed = True
+                    kinds[-1] += f":{fmt}>{f2}"
+                elif kind == "pr_dupd2":
+                    if not case.get("kf2"):
+                        continue
+                    if case["lru"] or (len(table) >= case["size"]
+                                       and key not in table):
+                        continue
+                    key2 = tuple(case["keys2"][op["key2"]])
+                    if len(table2) >= 8 and key2 not in table2:
+                        continue
+                    ctl = {"op": 8, "sel": k, "found": 99, "o0": -12345,
+                           "a0": abs(op["hval"]) & 0x7f}
+                    for i, v in enumerate(key):
+                        ctl[f"ka{i}"] = v
+                    for i, v in enumerate(op["vals"]):
+                        ctl[f"va{i}"] = v
+                    for i, v in enumerate(key2):
+                        ctl[f"kb{i}"] = v
+                    for i, v in enumerate(op["vals2"]):
+                        ctl[f"vb{i}"] = v
+                    run_prog(**ctl)
+                    if e.found != 0 or e.o0 != 0:
+                        return fail(f"staged updates of two Dicts returned "
+                                    f"{e.found} and {e.o0}", bucket=kind)
+                    table[key] = list(op["vals"])
+                    table2[key2] = list(op["vals2"])
+                    written_by["d", key] = "pr"
+                    if case.get("loc") and e.vo0 != abs(op["hval"]) & 0x7f:
+                        return fail(f"local variable {case['loc']} declared "
+                                    f"next to the Dicts reads {e.vo0} after "
+                                    f"{abs(op['hval']) & 0x7f} was stored",
+                                    bucket="dupd2-local")
+                    k2names = [f"k{i}" for i in range(len(case["kf2"]))]
+                    v2names = [f"v{i}" for i in range(len(case["vf2"]))]
+                    for name, tbl, model, kc, kn, vn in (
+                            ("first", e.table, table, Key, knames, vnames),
+                            ("second", e.table2, table2, e.Key2, k2names,
+                             v2names)):
+                        got = {tuple(getattr(kk, n) for n in kn):
+                               [getattr(tbl[kk], n) for n in vn]
+                               for kk in tbl}
+                        if got != model:
+                            return fail(
+                                f"after staging and updating both Dicts "
+                                f"(layouts {kf}->{vf}, {case['kf2']}->"
+                                f"{case['vf2']}, local {case.get('loc')}) "
+                                f"the {name} holds {got}, expected {model}",
+                                bucket=kind)
+                    crossed = True
                 elif kind == "py_aget":
                     v = op["hval"]
                     v = v - (1 << 64) if v >= 1 << 63 else v
